@@ -153,8 +153,14 @@ Definition C16_sample : tree :=
 Example C16_ex_wf : wf_tree C16_sample /\ blen (encode C16_sample) < two63.
 Proof.
   split; [|vm_compute; reflexivity].
-  cbn; repeat split; try (vm_compute; reflexivity); try lia; repeat constructor;
-    vm_compute; reflexivity.
+  cbn [C16_sample wf_tree wf_tag wf_val].
+  repeat match goal with
+         | |- _ /\ _ => split
+         | |- True => exact I
+         | |- is_bytes _ => repeat constructor; vm_compute; reflexivity
+         | |- (_ <= _)%Z => vm_compute; discriminate
+         | |- _ => vm_compute; reflexivity
+         end.
 Qed.
 
 Example C16_ex_roundtrip : decode (encode C16_sample ++ [0x18; 0xff]) = ROk C16_sample.
